@@ -58,11 +58,17 @@ impl Net {
         if let Some(w) = s.waker.take() {
             w.wake();
         }
+        if let Some(w) = s.wwaker.take() {
+            w.wake();
+        }
     }
     pub fn reset(&self) {
         let mut s = self.0.lock().unwrap();
         s.read_err = true;
         if let Some(w) = s.waker.take() {
+            w.wake();
+        }
+        if let Some(w) = s.wwaker.take() {
             w.wake();
         }
     }
@@ -128,6 +134,11 @@ impl AsyncWrite for SimIo {
     fn poll_write(self: Pin<&mut Self>, cx: &mut Context<'_>, buf: &[u8]) -> Poll<io::Result<usize>> {
         let mut s = self.0.lock().unwrap();
         if s.stall_writes {
+            // a peer that has closed or reset the connection does not keep a writer blocked for ever:
+            // the kernel answers the pending write with an error (EPIPE / ECONNRESET)
+            if s.eof || s.read_err {
+                return Poll::Ready(Err(io::Error::new(io::ErrorKind::BrokenPipe, "sim write to a closed peer")));
+            }
             s.wwaker = Some(cx.waker().clone());
             return Poll::Pending;
         }
